@@ -135,6 +135,16 @@ def gen_inputs(rng, n, cossep, stream, radio_cos=None):
         coseff = np.clip(coseff, -1.0, 1.0)
     if radio_cos is not None:
         coseff = radio_cos
+    if stream == "signed":
+        # signal-to-noise ratios are signed; thresholds at and below zero are valid thresholds
+        trig = rng.normal(0.5, 2.0, n)
+        thr = float(rng.choice([0.0, -1.5, 0.25, -0.0]))
+        if n:
+            trig[: max(1, n // 6)] = thr
+    elif stream == "counts":
+        # whole-number signals (photo-electron counts, pass/fail flags)
+        trig = np.floor(trig) if rng.random() < 0.7 else (trig > np.median(trig)).astype(np.float64)
+        thr = float(rng.choice([1.0, 5.0, 0.5]))
     kind = rng.integers(0, 3)
     if kind == 0:
         sn, ss = 1.0, 1.0
@@ -204,6 +214,19 @@ def check_diffuse_call(ctx, geom, cfgid, stream, ins, full_mask, lines, pend):
         ctx.violation(site, "npass", f"passing count {int(got[2])} != {o_n}", big)
     if abs(sn * ss - 1.0) < 1e-12 and (w >= 0).all() and got[0] > BSHR * got[1] * (1 + 1e-9):
         ctx.violation(site, "exceeds-0.826-geo", "integral above 0.826 x geometric integral", big)
+    if stream == "counts" and k:
+        # the same whole numbers in an integer (or Boolean) array: the three returned values may not depend on the type
+        forms = [("int64", trig.astype(np.int64)), ("int32", trig.astype(np.int32))]
+        if set(np.unique(trig)) <= {0.0, 1.0}:
+            forms.append(("bool", trig.astype(bool)))
+        for nm, t_ in forms:
+            g2 = geom.mcintegral(t_, coseff, p, thr, sn, ss)
+            ctx.count("diffuse_trigger_dtype_" + nm)
+            if not (relclose(g2[0], got[0], 1e-12, 1e-300) and relclose(g2[1], got[1], 1e-12, 1e-300) and int(g2[2]) == int(got[2])):
+                ctx.violation(site, "depends-on-the-dtype-of-the-trigger-values",
+                              f"trigger values given as {nm} holding the same whole numbers give ({float(g2[0])!r}, {float(g2[1])!r}, {int(g2[2])}) instead of ({float(got[0])!r}, {float(got[1])!r}, {int(got[2])})",
+                              dict(big, dtype=nm))
+                break
     ctx.case((site, cfgid, stream, k, o_n) if 0 < o_n < k else None,
              dict(case, op=site) if len(ctx.samples) < 2 else None)
     ctx.count(f"diffuse_{stream}")
@@ -226,7 +249,7 @@ def part_diffuse(ctx, nss, RegionGeom):
         if not relclose(h2f(o[0]), geom.mcnorm, 1e-11):
             ctx.disagree("C03.mcnorm", {"cfg": ci, "model": h2f(o[0]), "code": float(geom.mcnorm)})
         for rep in range(reps):
-            stream = ("structured", "boundary")[rep % 2]
+            stream = ("structured", "boundary", "structured", "signed", "boundary", "counts")[rep % 6]
             n = int(rng.choice([1, 2, 3, 17, 64, 300])) if rep >= 2 else (300 if ctx.thorough else 120)
             u = rng.random((4, n))
             if rep == reps - 1:
